@@ -95,13 +95,20 @@ impl BumpAllocator {
         loop {
             let current = self.current.load(Ordering::Acquire);
 
-            // Calculate aligned offset
-            let aligned_offset = (current + align - 1) & !(align - 1);
-            let new_offset = aligned_offset + size;
-
-            if new_offset > self.capacity {
-                return Err(ZiporaError::out_of_memory(size));
-            }
+            // Calculate the offset at which the *address* is aligned (the buffer itself is only
+            // guaranteed to be 8-byte aligned, so aligning the offset alone is not enough)
+            let base = self.buffer.as_ptr() as usize;
+            let aligned_offset = match base
+                .checked_add(current)
+                .and_then(|addr| addr.checked_add(align - 1))
+            {
+                Some(addr) => (addr & !(align - 1)) - base,
+                None => return Err(ZiporaError::out_of_memory(size)),
+            };
+            let new_offset = match aligned_offset.checked_add(size) {
+                Some(end) if end <= self.capacity => end,
+                _ => return Err(ZiporaError::out_of_memory(size)),
+            };
 
             // Try to atomically update the current offset
             match self.current.compare_exchange_weak(
@@ -162,8 +169,11 @@ impl BumpAllocator {
     /// may allocate between this check and the actual allocation.
     pub fn can_allocate(&self, size: usize, align: usize) -> bool {
         let current = self.current.load(Ordering::Relaxed);
-        let aligned_offset = (current + align - 1) & !(align - 1);
-        aligned_offset + size <= self.capacity
+        let base = self.buffer.as_ptr() as usize;
+        let aligned_offset = ((base + current + align - 1) & !(align - 1)) - base;
+        aligned_offset
+            .checked_add(size)
+            .map_or(false, |end| end <= self.capacity)
     }
 }
 
